@@ -67,6 +67,14 @@ func classifyStd(fn *ssa.Function) stdInfo {
 	case "errors.New":
 		return stdInfo{Class: stdPure, MutArg: -1, Fresh: true, NoPanic: true, CallsArg: -1}
 	}
+	switch name {
+	case "(*strings.Builder).WriteString", "(*strings.Builder).WriteByte", "(*strings.Builder).WriteRune", "(*strings.Builder).Grow", "(*strings.Builder).Reset",
+		"(*bytes.Buffer).WriteString", "(*bytes.Buffer).WriteByte", "(*bytes.Buffer).WriteRune", "(*bytes.Buffer).Write":
+		// write to the builder they are called on (argument 0)
+		return stdInfo{Class: stdMutatesArg, MutArg: 0, CallsArg: -1, NoPanic: true}
+	case "(*strings.Builder).String", "(*strings.Builder).Len", "(*bytes.Buffer).String", "(*bytes.Buffer).Len", "(*bytes.Buffer).Bytes":
+		return stdInfo{Class: stdPure, MutArg: -1, CallsArg: -1, NoPanic: true}
+	}
 	if name == "(*sync.Once).Do" {
 		return stdInfo{Class: stdPure, MutArg: -1, CallsArg: 1, NoPanic: true} // runs the callback at most once; thread-safe by contract
 	}
